@@ -27,6 +27,19 @@ Theorem C10_isolation : forall S sk, In sk all_fes -> forall cfg (l : units S) (
 Proof. exact c10_isolation. Qed.
 Print Assumptions C10_isolation.
 
+(* the same over a whole served request list: a unit nobody addresses keeps its store *)
+Theorem C10_serve_isolation : forall S sk, In sk all_fes -> forall cfg v, cf_single cfg = false ->
+  forall (rqs : list (dreq S)) (l : units S),
+  (forall rq, In rq rqs -> is_bcast S sk cfg rq = false /\ rq_uid rq <> v) ->
+  u_get S (fst (fst (serve S code sk cfg l rqs))) v = u_get S l v.
+Proof. exact c10_serve_isolation. Qed.
+Print Assumptions C10_serve_isolation.
+
+Theorem C10_serve_hosted_set_stable : forall S sk, In sk all_fes -> forall cfg (rqs : list (dreq S)) (l : units S),
+  u_keys S (fst (fst (serve S code sk cfg l rqs))) = u_keys S l.
+Proof. exact c10_serve_keys. Qed.
+Print Assumptions C10_serve_hosted_set_stable.
+
 (* … and is executed, once, against the addressed unit's store *)
 Theorem C10_addressed : forall S sk, In sk all_fes -> forall cfg (l : units S) (rq : dreq S) s,
   cf_single cfg = false -> is_bcast S sk cfg rq = false -> u_get S l (rq_uid rq) = Some s ->
